@@ -21,7 +21,8 @@ import PromVerif.Py.Err
 import PromVerif.Generated.Http
 
 namespace PromVerif.Model.Http
-open PromVerif PromVerif.Py PromVerif.Generated.Http
+open PromVerif.Py (stripSet lstripSet rstripSet PyM PyErr)
+open PromVerif.Generated.Http
 
 abbrev Str := List Char
 abbrev Bytes := List UInt8
